@@ -275,4 +275,14 @@ theorem leafCount_pos (k : Nat) : 0 < leafCount k := by
   have := leafCount_odd k; omega
 
 
+theorem alternates_getElem (perm : List Nat → List Nat) :
+    ∀ (l : List (List Nat)) (q : List Nat) (i : Nat), Alternates perm q l → i < l.length → l[i]? = some (perm^[i] q)
+  | [], _, i, _, hi => by simp at hi
+  | x :: l, q, 0, h, _ => by simp [Alternates] at h; simp [h.1]
+  | x :: l, q, i + 1, h, hi => by
+    simp only [Alternates] at h
+    rw [List.getElem?_cons_succ, Function.iterate_succ_apply]
+    exact alternates_getElem perm l (perm q) i h.2 (by simpa using hi)
+
+
 end OFV.C15
